@@ -1,6 +1,7 @@
 package num
 
 import (
+	"encoding/json"
 	"errors"
 	"fmt"
 	"math"
@@ -373,8 +374,13 @@ func (a *Amount) UnmarshalJSON(value []byte) error {
 }
 
 func unquote(value []byte) []byte {
-	// If the amount is quoted, strip the quotes
+	// If the amount is quoted, decode the JSON string so that
+	// any escape sequences it may contain are also dealt with.
 	if len(value) > 2 && value[0] == '"' && value[len(value)-1] == '"' {
+		var s string
+		if err := json.Unmarshal(value, &s); err == nil {
+			return []byte(s)
+		}
 		value = value[1 : len(value)-1]
 	}
 	return value
